@@ -290,14 +290,14 @@ def run(chk, facts_dir, tier):
         else:
             chk.fail("R9.4", hb_body.path, "has_seen/%s" % (fa or fb), "has_seen compares the record's %s with %s; only `record < from` marks an event as seen "
                      "(`<=` drops the next expected event, `>` inverts the filter)" % (fa or fb, op), hb_body, c["line"])
-    chk.floor("R9.4-has_seen", n_cmp, 8)
+    chk.floor("R9.4-has_seen", n_cmp, 4)
     # update_state / update_from_sequences: +1 only
     n_inc = 0
     for fn in ("update_state", "update_from_sequences"):
         ub2 = prog.body(MATCHER + fn)
         chk.analysed(ub2.path)
         n_inc += _plus_one_only(chk, ub2, ("partition_sequence", "stream_version"))
-    chk.floor("R9.4-update", n_inc, 8)
+    chk.floor("R9.4-update", n_inc, 4)
 
     # ---------------- R9.5
     allowed = {
